@@ -27,13 +27,17 @@ def expected_graph(program):
     idx = S.node_index(program)
     reach = S.reachable(program)
     nodes = {}
-    edges = {}
+    edges = []  # one entry per declared dependency (a multiset: nothing may be merged)
 
     def node(n, **attrs):
         nodes.setdefault(n, {}).update(attrs)
 
     def edge(u, v, **attrs):
-        edges.setdefault((u, v), {}).update(attrs)
+        # the definition of one named switch given by two consumers is one synthetic node with one set of edges;
+        # every other declared dependency is its own entry
+        shared_def = isinstance(v, tuple) and v[0] == 'sw' and (u, v, attrs) in edges
+        if not shared_def and not (attrs == {} and (u, v, attrs) in edges):
+            edges.append((u, v, attrs))
 
     node(inp)
     for nid in sorted(reach, key=lambda x: int(x[1:])):
@@ -101,9 +105,9 @@ def actual_graph(dag, comp):
         if 'start_node' in d:
             d['start_node'] = comp.spec_id.get(d['start_node'], d['start_node'])
         nodes[name[n]] = d
-    edges = {}
+    edges = []
     for u, v, d in g.edges(data=True):
-        edges[(name[u], name[v])] = {val(k): x for k, x in d.items()}
+        edges.append((name[u], name[v], {val(k): x for k, x in d.items() if x is not None}))
     return nodes, edges, name
 
 
@@ -129,14 +133,20 @@ def compare_graphs(exp, act):
             e = {k: v for k, v in en[n].items() if v not in (None, False)}
             if a != e:
                 out.append(('node-attributes', f'{n}: built {a} declared {e}'))
-    for k in ee:
-        if k not in ae:
-            out.append(('missing-edge', f'{k} {ee[k]}'))
-        elif {x: y for x, y in ae[k].items() if y is not None} != ee[k]:
-            out.append(('edge-attributes', f'{k}: built {ae[k]} declared {ee[k]}'))
-    for k in ae:
-        if k not in ee:
-            out.append(('extra-edge', f'{k} {ae[k]}'))
+    rest = list(ae)
+    for e in ee:
+        if e in rest:
+            rest.remove(e)
+        else:
+            same = [a for a in rest if a[0] == e[0] and a[1] == e[1]]
+            if same:
+                out.append(('edge-attributes', f'{e[0]} -> {e[1]}: built {same[0][2]} declared {e[2]}'))
+                rest.remove(same[0])
+            else:
+                out.append(('missing-edge', f'declared dependency {e[0]} -> {e[1]} {e[2]} is not in the graph '
+                                            f'(dropped or merged with another)'))
+    for a in rest:
+        out.append(('extra-edge', f'{a[0]} -> {a[1]} {a[2]}'))
     return out
 
 
@@ -220,7 +230,9 @@ class C15(Check):
                 comp2 = C.compile_program(p2)
                 act2 = actual_graph(comp2.build_dag(), comp2)
                 comparisons += 1
-                if (act2[0], act2[1]) != (act[0], act[1]):
+                def norm(a):
+                    return a[0], sorted(a[1], key=repr)
+                if norm(act2) != norm(act):
                     viol.append(('order-dependent-graph', 'a permuted declaration order gives a different graph: '
                                  + str(compare_graphs((act[0], act[1]), act2))[:500]))
         nontrivial = any(m[0] != 'in' for n in prog['nodes'] if n['id'] in reach for _, m in n['params']) or any(
